@@ -12,16 +12,29 @@ package pathdb
 // the model state of that root (pdbWorld) and with the leaves of the state /
 // storage trie at that root. Finally iterators opened on the head are continued
 // after the stack below them has been flattened.
+//
+// Iteration is interleaved with the mutations: between successive Update / cap /
+// Commit steps on the same database a drawn live root is iterated (accounts and
+// storage, fast and binary), so that the sorted key lists cached by one iteration
+// meet later merges into the unflushed write buffer (w4-iter; seeded C22-A).
+//
+// TestVerifC22FlushWindow owns the schedule "iterator created while the frozen
+// write buffer is still being flushed in the background": the key-value store
+// handed to pathdb is wrapped so that the flush's batch.Write is held back until a
+// database iterator is opened (bounded), no source hook (seeded C22-B).
 
 import (
 	"bytes"
 	"fmt"
 	"math/big"
 	"strings"
+	"sync"
 	"testing"
+	"time"
 
 	"github.com/ethereum/go-ethereum/common"
 	"github.com/ethereum/go-ethereum/core/rawdb"
+	"github.com/ethereum/go-ethereum/ethdb"
 	"github.com/ethereum/go-ethereum/trie"
 	"pgregory.net/rapid"
 	vs "verif.local/kit/stat"
@@ -99,6 +112,12 @@ type c22Env struct {
 	trace []string
 	// statistics
 	iterators, seeksOnTombstone, midflightOK, midflightErr int
+	// write-buffer merges observed white-box (statistics only, see observeMerge)
+	bufferMerges, mergesWithCachedList int
+	slotOnlyExtensions, acctExtensions int // merges that extended a cached storage / account key list
+	pendingSlotExt, pendingAcctExt     bool
+	iterAfterSlotExt, iterAfterAcctExt int
+	betweenChecks                      int
 }
 
 func (e *c22Env) fail(format string, a ...any) {
@@ -235,8 +254,101 @@ func (e *c22Env) recreatedAbove(root common.Hash) bool {
 	return false
 }
 
-// checkRoot verifies all iterator kinds at one live root.
-func (e *c22Env) checkRoot(root common.Hash) {
+// accountIter checks one account iterator (fast = public API, otherwise the
+// white-box binary iterator) at root from seek against the model.
+func (e *c22Env) accountIter(root, seek common.Hash, fast bool) {
+	st := e.w.State(root)
+	want := c22Expect(st.SortedAccounts(), st.AccountBlob, seek)
+	var (
+		it   AccountIterator
+		name = "binary"
+	)
+	if fast {
+		name = "fast"
+		f, err := e.db.AccountIterator(root, seek)
+		if err != nil {
+			e.fail("AccountIterator(%x, %x): %v", root, seek, err)
+		}
+		it = f
+	} else {
+		it = e.binaryAccount(root, seek)
+	}
+	got, ierr := c22Drain(it, it.Account, 1000)
+	it.Release()
+	if ierr != nil {
+		e.fail("%s account iterator at %x seek %x failed: %v", name, root, seek, ierr)
+	}
+	if d := c22Compare(got, want); d != "" {
+		e.fail("%s account iterator at root %x seek %x: %s\n got:%s\nwant:%s", name, root, seek, d, c22Render(got), c22Render(want))
+	}
+	e.iterators++
+}
+
+// storageIter is accountIter for the storage of one account.
+func (e *c22Env) storageIter(root, owner, seek common.Hash, fast bool) {
+	st := e.w.State(root)
+	want := c22Expect(st.SortedSlots(owner), func(h common.Hash) []byte { return st.SlotBlob(owner, h) }, seek)
+	var (
+		it   StorageIterator
+		name = "binary"
+	)
+	if fast {
+		name = "fast"
+		f, err := e.db.StorageIterator(root, owner, seek)
+		if err != nil {
+			e.fail("StorageIterator(%x, %x, %x): %v", root, owner, seek, err)
+		}
+		it = f
+	} else {
+		it = e.binaryStorage(root, owner, seek)
+	}
+	got, ierr := c22Drain(it, it.Slot, 1000)
+	it.Release()
+	if ierr != nil {
+		e.fail("%s storage iterator at %x/%x seek %x failed: %v", name, root, owner, seek, ierr)
+	}
+	if d := c22Compare(got, want); d != "" {
+		e.fail("%s storage iterator at root %x account %x seek %x: %s\n got:%s\nwant:%s", name, root, owner, seek, d, c22Render(got), c22Render(want))
+	}
+	e.iterators++
+}
+
+// trieLeaves compares the leaves of the state trie (owner zero) or of a storage
+// trie at root, from seek, with the model.
+func (e *c22Env) trieLeaves(root, owner, seek common.Hash) {
+	st := e.w.State(root)
+	var (
+		id   *trie.ID
+		want []c22Entry
+	)
+	if owner == (common.Hash{}) {
+		id = trie.StateTrieID(root)
+		want = c22Expect(st.SortedAccounts(), func(h common.Hash) []byte { return st.Accts[h].Full }, seek)
+	} else {
+		id = trie.StorageTrieID(root, owner, st.Accts[owner].StorageRoot)
+		want = c22Expect(st.SortedSlots(owner), func(h common.Hash) []byte { return st.SlotBlob(owner, h) }, seek)
+	}
+	tr, err := trie.New(id, e.db)
+	if err != nil {
+		e.fail("open trie %x/%x: %v", root, owner, err)
+	}
+	nit, err := tr.NodeIterator(seek[:])
+	if err != nil {
+		e.fail("trie iterator %x/%x: %v", root, owner, err)
+	}
+	var leaves []c22Entry
+	for tit := trie.NewIterator(nit); tit.Next(); {
+		leaves = append(leaves, c22Entry{common.BytesToHash(tit.Key), common.CopyBytes(tit.Value)})
+	}
+	if d := c22Compare(leaves, want); d != "" {
+		e.fail("trie leaves at root %x owner %x from %x: %s", root, owner, seek, d)
+	}
+	e.iterators++
+}
+
+// checkRoot verifies all iterator kinds at one live root. The light variant (used
+// between the mutation steps) draws fewer seek positions and skips the tries.
+func (e *c22Env) checkRoot(root common.Hash, full bool) {
 	st := e.w.State(root)
 	accounts := st.SortedAccounts()
 	tombs := e.accountTombstones(root)
@@ -244,50 +356,19 @@ func (e *c22Env) checkRoot(root common.Hash) {
 	for _, h := range tombs {
 		isTomb[h] = true
 	}
-	for _, seek := range e.seeks(accounts, append(tombs, pdbAbsentAccount.Hash), "accountSeek") {
+	aseeks := e.seeks(accounts, append(tombs, pdbAbsentAccount.Hash), "accountSeek")
+	if !full {
+		aseeks = aseeks[:2] // seeks() always yields zero and at least max
+	}
+	for _, seek := range aseeks {
 		if isTomb[seek] {
 			e.seeksOnTombstone++
 		}
-		want := c22Expect(accounts, st.AccountBlob, seek)
-		fast, err := e.db.AccountIterator(root, seek)
-		if err != nil {
-			e.fail("AccountIterator(%x, %x): %v", root, seek, err)
+		e.accountIter(root, seek, true)
+		e.accountIter(root, seek, false)
+		if full {
+			e.trieLeaves(root, common.Hash{}, seek)
 		}
-		got, ierr := c22Drain(fast, fast.Account, 1000)
-		fast.Release()
-		if ierr != nil {
-			e.fail("fast account iterator at %x seek %x failed: %v", root, seek, ierr)
-		}
-		if d := c22Compare(got, want); d != "" {
-			e.fail("fast account iterator at root %x seek %x: %s\n got:%s\nwant:%s", root, seek, d, c22Render(got), c22Render(want))
-		}
-		bin := e.binaryAccount(root, seek)
-		gotB, berr := c22Drain(bin, bin.Account, 1000)
-		bin.Release()
-		if berr != nil {
-			e.fail("binary account iterator at %x seek %x failed: %v", root, seek, berr)
-		}
-		if d := c22Compare(gotB, want); d != "" {
-			e.fail("binary account iterator at root %x seek %x: %s\n got:%s\nwant:%s", root, seek, d, c22Render(gotB), c22Render(want))
-		}
-		// the state trie at this root, iterated from the same position
-		tr, err := trie.New(trie.StateTrieID(root), e.db)
-		if err != nil {
-			e.fail("open state trie %x: %v", root, err)
-		}
-		nit, err := tr.NodeIterator(seek[:])
-		if err != nil {
-			e.fail("state trie iterator %x: %v", root, err)
-		}
-		var leaves []c22Entry
-		for tit := trie.NewIterator(nit); tit.Next(); {
-			leaves = append(leaves, c22Entry{common.BytesToHash(tit.Key), common.CopyBytes(tit.Value)})
-		}
-		wantFull := c22Expect(accounts, func(h common.Hash) []byte { return st.Accts[h].Full }, seek)
-		if d := c22Compare(leaves, wantFull); d != "" {
-			e.fail("state trie leaves at root %x from %x: %s", root, seek, d)
-		}
-		e.iterators += 3
 	}
 	// storage iterators: every pool account (existing or not) and one that never existed
 	owners := []common.Hash{pdbAbsentAccount.Hash}
@@ -305,54 +386,131 @@ func (e *c22Env) checkRoot(root common.Hash) {
 			isTomb[h] = true
 		}
 		sseeks := e.seeks(slots, append(stombs, pdbAbsentSlot.Hash), "slotSeek")
-		if len(sseeks) > 3 {
-			sseeks = sseeks[:3]
+		if n := map[bool]int{true: 3, false: 2}[full]; len(sseeks) > n {
+			sseeks = sseeks[:n]
 		}
 		for _, seek := range sseeks {
 			if isTomb[seek] {
 				e.seeksOnTombstone++
 			}
-			want := c22Expect(slots, func(h common.Hash) []byte { return st.SlotBlob(owner, h) }, seek)
-			fast, err := e.db.StorageIterator(root, owner, seek)
-			if err != nil {
-				e.fail("StorageIterator(%x, %x, %x): %v", root, owner, seek, err)
+			e.storageIter(root, owner, seek, true)
+			e.storageIter(root, owner, seek, false)
+			if full && st.Accts[owner] != nil {
+				e.trieLeaves(root, owner, seek)
 			}
-			got, ierr := c22Drain(fast, fast.Slot, 1000)
-			fast.Release()
-			if ierr != nil {
-				e.fail("fast storage iterator at %x/%x seek %x failed: %v", root, owner, seek, ierr)
+		}
+	}
+}
+
+// liveRoots returns the model roots still present in the layer tree, oldest first.
+func (e *c22Env) liveRoots() []common.Hash {
+	var live []common.Hash
+	for _, r := range e.w.Roots() {
+		if e.db.tree.get(r) != nil {
+			live = append(live, r)
+		}
+	}
+	return live
+}
+
+// between iterates one drawn live root (biased to the head) between two mutation
+// steps: whatever this iteration caches inside the layers meets the next merge.
+func (e *c22Env) between(head common.Hash) {
+	live := e.liveRoots()
+	root := head
+	if i := rapid.IntRange(0, 2*len(live)).Draw(e.t, "iterRoot"); i < len(live) {
+		root = live[i]
+	}
+	e.trace = append(e.trace, fmt.Sprintf("iterate %x", root[:4]))
+	if !e.db.tree.bottom().buffer.empty() {
+		if e.pendingSlotExt {
+			e.iterAfterSlotExt++
+		}
+		if e.pendingAcctExt {
+			e.iterAfterAcctExt++
+		}
+	}
+	e.betweenChecks++
+	e.checkRoot(root, false)
+}
+
+// c22BufSnap is the key set of the disk layer's write buffer and which of its
+// sorted key lists are cached, taken white-box before a mutation step.
+type c22BufSnap struct {
+	buf        *buffer
+	layers     uint64
+	accounts   map[common.Hash]bool
+	slots      map[common.Hash]map[common.Hash]bool
+	acctCached bool
+	cached     map[common.Hash]bool // owners with a cached storage key list
+}
+
+func (e *c22Env) snapBuffer() c22BufSnap {
+	b := e.db.tree.bottom().buffer
+	s := c22BufSnap{buf: b, layers: b.layers, accounts: map[common.Hash]bool{}, slots: map[common.Hash]map[common.Hash]bool{}, cached: map[common.Hash]bool{}}
+	for a := range b.states.accountData {
+		s.accounts[a] = true
+	}
+	for a, m := range b.states.storageData {
+		s.slots[a] = map[common.Hash]bool{}
+		for k := range m {
+			s.slots[a][k] = true
+		}
+	}
+	b.states.listLock.RLock()
+	s.acctCached = b.states.accountListSorted != nil
+	for a, l := range b.states.storageListSorted {
+		if l != nil {
+			s.cached[a] = true
+		}
+	}
+	b.states.listLock.RUnlock()
+	return s
+}
+
+// observeMerge classifies (statistics only) what a mutation step did to the write
+// buffer: merged into the unflushed buffer or flushed; if merged, whether a key list
+// cached by an earlier iteration was extended, and whether by new slots only (no new
+// account key, no new storage set). Several layers merged in one step are judged as
+// one merge.
+func (e *c22Env) observeMerge(before c22BufSnap) {
+	b := e.db.tree.bottom().buffer
+	if b != before.buf || b.layers < before.layers {
+		e.pendingSlotExt, e.pendingAcctExt = false, false // flushed (or reverted)
+		return
+	}
+	if b.layers == before.layers {
+		return
+	}
+	e.bufferMerges++
+	if before.acctCached || len(before.cached) > 0 {
+		e.mergesWithCachedList++
+	}
+	newAcct, newSet, newSlotCached := false, false, false
+	for a := range b.states.accountData {
+		if !before.accounts[a] {
+			newAcct = true
+		}
+	}
+	for a, m := range b.states.storageData {
+		if before.slots[a] == nil {
+			newSet = true
+			continue
+		}
+		for k := range m {
+			if !before.slots[a][k] && before.cached[a] {
+				newSlotCached = true
 			}
-			if d := c22Compare(got, want); d != "" {
-				e.fail("fast storage iterator at root %x account %x seek %x: %s\n got:%s\nwant:%s", root, owner, seek, d, c22Render(got), c22Render(want))
-			}
-			bin := e.binaryStorage(root, owner, seek)
-			gotB, berr := c22Drain(bin, bin.Slot, 1000)
-			bin.Release()
-			if berr != nil {
-				e.fail("binary storage iterator at %x/%x seek %x failed: %v", root, owner, seek, berr)
-			}
-			if d := c22Compare(gotB, want); d != "" {
-				e.fail("binary storage iterator at root %x account %x seek %x: %s\n got:%s\nwant:%s", root, owner, seek, d, c22Render(gotB), c22Render(want))
-			}
-			e.iterators += 2
-			if acc := st.Accts[owner]; acc != nil {
-				tr, err := trie.New(trie.StorageTrieID(root, owner, acc.StorageRoot), e.db)
-				if err != nil {
-					e.fail("open storage trie %x/%x: %v", root, owner, err)
-				}
-				nit, err := tr.NodeIterator(seek[:])
-				if err != nil {
-					e.fail("storage trie iterator %x/%x: %v", root, owner, err)
-				}
-				var leaves []c22Entry
-				for tit := trie.NewIterator(nit); tit.Next(); {
-					leaves = append(leaves, c22Entry{common.BytesToHash(tit.Key), common.CopyBytes(tit.Value)})
-				}
-				if d := c22Compare(leaves, want); d != "" {
-					e.fail("storage trie leaves at root %x account %x from %x: %s", root, owner, seek, d)
-				}
-				e.iterators++
-			}
+		}
+	}
+	if newAcct && before.acctCached {
+		e.acctExtensions++
+		e.pendingAcctExt = true
+	}
+	if newSlotCached {
+		e.pendingSlotExt = true
+		if !newAcct && !newSet {
+			e.slotOnlyExtensions++
 		}
 	}
 }
@@ -360,12 +518,41 @@ func (e *c22Env) checkRoot(root common.Hash) {
 func (e *c22Env) push(parent common.Hash, raw bool) *pdbTransition {
 	ops := pdbDrawOps(e.t, e.w.State(parent), rapid.IntRange(2, 6).Draw(e.t, "nops"))
 	tr := e.w.Transition(parent, ops, e.w.NextSeq(), raw)
+	before := e.snapBuffer()
 	if err := e.db.Update(tr.Root, tr.Parent, uint64(len(e.chain)), tr.Nodes, tr.States); err != nil {
 		e.fail("Update(%x<-%x): %v", tr.Root, tr.Parent, err)
 	}
 	e.chain = append(e.chain, tr)
 	e.trace = append(e.trace, fmt.Sprintf("update %x<-%x %v", tr.Root[:4], tr.Parent[:4], ops))
+	e.observeMerge(before)
 	return tr
+}
+
+func (e *c22Env) commit(head common.Hash, note string) {
+	before := e.snapBuffer()
+	if err := e.db.Commit(head, false); err != nil {
+		e.fail("Commit(%x): %v", head, err)
+	}
+	e.trace = append(e.trace, fmt.Sprintf("commit %x%s", head[:4], note))
+	e.observeMerge(before)
+}
+
+// capTo flattens the stack below head down to `layers` diff layers, exactly as
+// Database.Update does with maxDiffLayers = layers (white-box: tree.cap under the
+// database lock). Several bottom layers may be merged in one step.
+func (e *c22Env) capTo(head common.Hash, layers int) {
+	if _, ok := e.db.tree.get(head).(*diffLayer); !ok {
+		return
+	}
+	before := e.snapBuffer()
+	e.db.lock.Lock()
+	err := e.db.tree.cap(head, layers)
+	e.db.lock.Unlock()
+	if err != nil {
+		e.fail("cap(%x, %d): %v", head, layers, err)
+	}
+	e.trace = append(e.trace, fmt.Sprintf("cap %x to %d layers", head[:4], layers))
+	e.observeMerge(before)
 }
 
 func TestVerifC22Pathdb(t *testing.T) {
@@ -374,11 +561,11 @@ func TestVerifC22Pathdb(t *testing.T) {
 	vs.Check(t, 1, func(rt *rapid.T) {
 		c := st.Case()
 		maxDiffLayers = rapid.SampledFrom([]int{1, 2, 4, 8, 128, 128, 128}).Draw(rt, "maxDiffLayers")
-		bufSize := rapid.SampledFrom([]int{0, 64 * 1024}).Draw(rt, "writeBuffer")
+		bufSize := rapid.SampledFrom([]int{0, 64 * 1024, 16 * 1024 * 1024}).Draw(rt, "writeBuffer")
 		noAsync := rapid.Bool().Draw(rt, "noAsyncFlush")
 		layers := rapid.IntRange(0, 12).Draw(rt, "layers")
-		commitAt := rapid.IntRange(-6, layers).Draw(rt, "commitAt") // <= 0: no commit
 		raw := rapid.Bool().Draw(rt, "rawKeys")
+		churn := rapid.SampledFrom([]int{0, 0, 1, 2}).Draw(rt, "churn") // explicit Commit / cap steps inside the history
 		disk := rawdb.NewMemoryDatabase()
 		db := New(disk, &Config{WriteBufferSize: bufSize, NoAsyncFlush: noAsync, NoAsyncGeneration: true,
 			TrieCleanSize: 64 * 1024, StateCleanSize: 64 * 1024, TrienodeHistory: -1}, false)
@@ -388,25 +575,30 @@ func TestVerifC22Pathdb(t *testing.T) {
 		}()
 		e := &c22Env{t: rt, db: db, w: newPdbWorld()}
 		head := e.w.Roots()[0]
+		commits, caps := 0, 0
 		for i := 1; i <= layers; i++ {
+			// a drawn moment between two mutation steps: iterate some live root
+			if rapid.IntRange(0, 2).Draw(rt, "iterateBetween") != 0 {
+				e.between(head)
+			}
 			head = e.push(head, raw).Root
-			if i == commitAt {
-				if err := db.Commit(head, false); err != nil {
-					e.fail("Commit(%x): %v", head, err)
-				}
-				e.trace = append(e.trace, fmt.Sprintf("commit %x", head[:4]))
+			if churn == 0 {
+				continue // the stack is shaped by maxDiffLayers alone
+			}
+			switch k := rapid.IntRange(0, 11).Draw(rt, "afterUpdate"); {
+			case k == 0:
+				e.commit(head, "")
+				commits++
+			case k <= 2*churn-1:
+				e.capTo(head, rapid.IntRange(1, 4).Draw(rt, "capLayers"))
+				caps++
 			}
 		}
 		// every live root of the (linear) stack
-		var live []common.Hash
-		for _, r := range e.w.Roots() {
-			if db.tree.get(r) != nil {
-				live = append(live, r)
-			}
-		}
+		live := e.liveRoots()
 		recreated := false
 		for _, r := range live {
-			e.checkRoot(r)
+			e.checkRoot(r, true)
 			recreated = recreated || e.recreatedAbove(r)
 		}
 		dl := db.tree.bottom()
@@ -431,10 +623,7 @@ func TestVerifC22Pathdb(t *testing.T) {
 				top = e.push(top, raw).Root
 			}
 			if rapid.Bool().Draw(rt, "commitAfter") {
-				if err := db.Commit(top, false); err != nil {
-					e.fail("Commit(%x): %v", top, err)
-				}
-				e.trace = append(e.trace, fmt.Sprintf("commit %x (iterators on %x open)", top[:4], head[:4]))
+				e.commit(top, fmt.Sprintf(" (iterators on %x open)", head[:4]))
 			}
 			want := c22Expect(accounts, hst.AccountBlob, common.Hash{})
 			for _, it := range []struct {
@@ -459,9 +648,13 @@ func TestVerifC22Pathdb(t *testing.T) {
 					e.fail("%s account iterator on %x continued after flattening without error but %s\n got:%s\nwant:%s", name, head, d, c22Render(all), c22Render(want))
 				}
 			}
+			// the full-root pass above cached key lists in every layer; the extra layers
+			// merged some of them: iterate once more on top of the result
+			e.between(top)
 		}
 
-		nt := recreated || e.seeksOnTombstone > 0
+		extended := e.iterAfterSlotExt > 0 || e.iterAfterAcctExt > 0
+		nt := recreated || e.seeksOnTombstone > 0 || extended
 		c.NonTrivial(nt, strings.Join(e.trace, ";"))
 		switch {
 		case diskOnly:
@@ -484,9 +677,246 @@ func TestVerifC22Pathdb(t *testing.T) {
 		if e.midflightOK > 0 {
 			c.Class("midflight-continued")
 		}
+		if e.betweenChecks > 1 {
+			c.Class("iterated-between-steps")
+		}
+		if commits > 0 {
+			c.Class("commit-in-history")
+		}
+		if caps > 0 {
+			c.Class("explicit-cap")
+		}
+		if e.bufferMerges > 0 {
+			c.Class("buffer-merge")
+		}
+		if e.mergesWithCachedList > 0 {
+			c.Class("buffer-merge-with-cached-key-list")
+		}
+		if e.slotOnlyExtensions > 0 {
+			c.Class("buffer-merge-extends-cached-storage-list-by-slots-only")
+		}
+		if e.iterAfterSlotExt > 0 {
+			c.Class("iterated-after-cached-storage-list-extended")
+		}
+		if e.iterAfterAcctExt > 0 {
+			c.Class("iterated-after-cached-account-list-extended")
+		}
 		c.Sample(nt, func() any {
-			return map[string]any{"maxDiffLayers": maxDiffLayers, "writeBuffer": bufSize, "layers": layers, "commitAt": commitAt,
-				"live_roots": len(live), "iterators_checked": e.iterators, "seeks_on_tombstone": e.seeksOnTombstone, "steps": e.trace}
+			return map[string]any{"maxDiffLayers": maxDiffLayers, "writeBuffer": bufSize, "layers": layers, "commits": commits, "caps": caps,
+				"live_roots": len(live), "iterators_checked": e.iterators, "seeks_on_tombstone": e.seeksOnTombstone,
+				"between_checks": e.betweenChecks, "buffer_merges": e.bufferMerges, "steps": e.trace}
+		})
+	})
+}
+
+// ---------------------------------------------------------------------------
+// Owned schedule: an iterator is created while the frozen buffer is being flushed.
+// ---------------------------------------------------------------------------
+
+// c22GateDB wraps the key-value store handed to pathdb. While armed, the next
+// batch.Write is held back until somebody opens a database iterator on the store,
+// the harness' deadline fires, or 3 s passed (never a deadlock, whatever the tree
+// does). It models a slow disk during the background buffer flush. Database
+// iterators are point-in-time views, so one opened before the batch landed does
+// not see the batch. No source hook.
+type c22GateDB struct {
+	ethdb.Database
+	mu       sync.Mutex
+	armed    bool
+	open     chan struct{} // closed on release
+	by       string        // what released the current/last gate
+	held     int           // batch writes held back
+	released map[string]int
+}
+
+func (d *c22GateDB) arm() {
+	d.mu.Lock()
+	defer d.mu.Unlock()
+	d.armed, d.open, d.by = true, make(chan struct{}), ""
+}
+
+func (d *c22GateDB) release(by string) {
+	d.mu.Lock()
+	defer d.mu.Unlock()
+	if d.armed {
+		d.armed, d.by = false, by
+		close(d.open)
+	}
+}
+
+// deadline releases the gate after dur unless it was released before (the gate
+// generation is identified by its channel).
+func (d *c22GateDB) deadline(dur time.Duration) {
+	d.mu.Lock()
+	ch, armed := d.open, d.armed
+	d.mu.Unlock()
+	if !armed {
+		return
+	}
+	time.AfterFunc(dur, func() {
+		d.mu.Lock()
+		same := d.open == ch
+		d.mu.Unlock()
+		if same {
+			d.release("deadline")
+		}
+	})
+}
+
+func (d *c22GateDB) NewIterator(prefix []byte, start []byte) ethdb.Iterator {
+	it := d.Database.NewIterator(prefix, start)
+	d.release("iterator")
+	return it
+}
+
+func (d *c22GateDB) NewBatch() ethdb.Batch { return &c22GateBatch{Batch: d.Database.NewBatch(), db: d} }
+
+func (d *c22GateDB) NewBatchWithSize(size int) ethdb.Batch {
+	return &c22GateBatch{Batch: d.Database.NewBatchWithSize(size), db: d}
+}
+
+type c22GateBatch struct {
+	ethdb.Batch
+	db *c22GateDB
+}
+
+func (b *c22GateBatch) Write() error {
+	b.db.mu.Lock()
+	ch, armed := b.db.open, b.db.armed
+	if armed {
+		b.db.held++
+	}
+	b.db.mu.Unlock()
+	if armed {
+		select {
+		case <-ch:
+		case <-time.After(3 * time.Second):
+			b.db.release("bound")
+		}
+		b.db.mu.Lock()
+		b.db.released[b.db.by]++
+		b.db.mu.Unlock()
+	}
+	return b.Batch.Write()
+}
+
+// TestVerifC22FlushWindow: a short history with a tiny write buffer and the
+// default asynchronous flush, so that (nearly) every Update freezes the buffer and
+// flushes it in the background. The flush's batch.Write is held back by c22GateDB;
+// while it hangs, ONE drawn iterator (fast or binary, account or storage, drawn live
+// root and seek) is created and drained: it must yield exactly the model's entries,
+// i.e. wait for the flush rather than pin the pre-flush disk state. Then the usual
+// light check of that root runs. On the unchanged tree the iterator constructors
+// block in waitFlush until the harness' deadline (150 ms after the constructor is
+// entered) lets the write through; wall time, not CPU time.
+func TestVerifC22FlushWindow(t *testing.T) {
+	st := vs.New("C22", t)
+	defer func(old int) { maxDiffLayers = old }(maxDiffLayers)
+	vs.Check(t, 0.06, func(rt *rapid.T) {
+		c := st.Case()
+		maxDiffLayers = rapid.SampledFrom([]int{1, 1, 2, 3}).Draw(rt, "maxDiffLayers")
+		bufSize := rapid.SampledFrom([]int{0, 0, 1024}).Draw(rt, "writeBuffer")
+		raw := rapid.Bool().Draw(rt, "rawKeys")
+		gate := &c22GateDB{Database: rawdb.NewMemoryDatabase(), released: map[string]int{}}
+		db := New(gate, &Config{WriteBufferSize: bufSize, NoAsyncFlush: false, NoAsyncGeneration: true,
+			TrieCleanSize: 64 * 1024, StateCleanSize: 64 * 1024, TrienodeHistory: -1}, false)
+		defer func() {
+			gate.release("teardown")
+			db.Close()
+			gate.Database.Close()
+		}()
+		e := &c22Env{t: rt, db: db, w: newPdbWorld()}
+		head := e.w.Roots()[0]
+		windows, maxWindows := 0, 2
+		if vs.Thorough() {
+			maxWindows = 4
+		}
+		first := map[string]int{}
+		frozenTombstone := false
+		for i, n := 0, rapid.IntRange(2, 8).Draw(rt, "updates"); i < n; i++ {
+			armed := windows < maxWindows
+			if armed {
+				gate.arm()
+			}
+			head = e.push(head, raw).Root
+			dl := db.tree.bottom()
+			if dl.frozen == nil || !armed {
+				gate.release("no-flush")
+				if rapid.IntRange(0, 3).Draw(rt, "iterateBetween") == 0 {
+					e.between(head)
+				}
+				continue
+			}
+			// the frozen buffer's flush hangs in batch.Write (or is about to)
+			windows++
+			live := e.liveRoots()
+			root := head
+			if j := rapid.IntRange(0, 2*len(live)).Draw(rt, "windowRoot"); j < len(live) {
+				root = live[j]
+			}
+			fst := e.w.State(root)
+			// storage owners whose slots sit in the frozen buffer are the interesting ones
+			var owners []common.Hash
+			for a, m := range dl.frozen.states.storageData {
+				owners = append(owners, a)
+				for _, v := range m {
+					frozenTombstone = frozenTombstone || len(v) == 0
+				}
+			}
+			for _, v := range dl.frozen.states.accountData {
+				frozenTombstone = frozenTombstone || len(v) == 0
+			}
+			if len(owners) == 0 {
+				for _, a := range pdbAddrs {
+					owners = append(owners, a.Hash)
+				}
+			}
+			pdbSortHashes(owners)
+			kind := rapid.SampledFrom([]string{"fast-account", "fast-account", "fast-storage", "fast-storage", "binary-account", "binary-storage"}).Draw(rt, "firstIterator")
+			owner := owners[rapid.IntRange(0, len(owners)-1).Draw(rt, "firstOwner")]
+			keys := fst.SortedAccounts()
+			if strings.HasSuffix(kind, "storage") {
+				keys = fst.SortedSlots(owner)
+			}
+			seek := common.Hash{}
+			if len(keys) > 0 && rapid.IntRange(0, 2).Draw(rt, "firstSeekNonZero") == 0 {
+				seek = keys[rapid.IntRange(0, len(keys)-1).Draw(rt, "firstSeek")]
+			}
+			e.trace = append(e.trace, fmt.Sprintf("flush of %x in flight: %s iterator at %x owner %x seek %x", dl.rootHash().Bytes()[:4], kind, root[:4], owner[:4], seek[:4]))
+			gate.deadline(150 * time.Millisecond)
+			switch kind {
+			case "fast-account":
+				e.accountIter(root, seek, true)
+			case "binary-account":
+				e.accountIter(root, seek, false)
+			case "fast-storage":
+				e.storageIter(root, owner, seek, true)
+			default:
+				e.storageIter(root, owner, seek, false)
+			}
+			first[kind]++
+			e.checkRoot(root, false)
+		}
+		gate.mu.Lock()
+		held, rel := gate.held, fmt.Sprint(gate.released)
+		byIter := gate.released["iterator"]
+		gate.mu.Unlock()
+		if windows > 0 && held == 0 {
+			rt.Fatalf("VERIF-HARNESS-BUG: %d flush windows but no batch write was held back", windows)
+		}
+		c.NonTrivial(windows > 0, strings.Join(e.trace, ";"))
+		c.Classf("flush-windows=%d", windows)
+		for k := range first {
+			c.Class("window-first=" + k)
+		}
+		if frozenTombstone {
+			c.Class("window-frozen-buffer-holds-tombstone")
+		}
+		if byIter > 0 {
+			c.Class("window-write-released-by-iterator") // a database iterator was opened before the flush landed
+		}
+		c.Sample(windows > 0, func() any {
+			return map[string]any{"maxDiffLayers": maxDiffLayers, "writeBuffer": bufSize, "windows": windows, "held_writes": held, "released_by": rel, "steps": e.trace}
 		})
 	})
 }
